@@ -92,7 +92,8 @@ func ScanUnit(s *scanner.Scanner, prefix string) (Unit, error) {
 		"m",
 		"h",
 		"d",
-		"w":
+		"w",
+		"y":
 		_, err := ParseDuration(text)
 		return Unit{Type: Duration, Text: text}, err
 	default:
